@@ -69,6 +69,7 @@ class Repo:
         self._text = {}       # relpath -> str
         self._classes = None  # name -> [ClassInfo]
         self.used = {}        # qualname -> dict(path, lines, sha256)
+        self.prefer = []      # relpaths preferred for ambiguous class names
 
     # -- files ----------------------------------------------------------
     def path(self, relpath):
@@ -136,6 +137,15 @@ class Repo:
                 return c2[0]
         if not cands:
             return None
+        if len(cands) > 1:
+            # homonymous classes: the property module may name the file it
+            # means (repo.prefer); otherwise PSyIR classes win
+            for c in cands:
+                if c.relpath in self.prefer:
+                    return c
+            for c in cands:
+                if c.relpath.startswith("psyir/"):
+                    return c
         return cands[0]
 
     def mro(self, name, relpath=None):
